@@ -74,8 +74,31 @@ def run(ctx):
     cases = [c for c in suites.hex_roundtrip_cases(rng, ctx.tier)
              if c.split(" ")[0] in ("frombytes", "fromarray", "parts", "quartile", "clearcks", "display", "storebytes", "consts")]
     cases += [c for c in suites.hex_malformed_cases(ctx.rng.fork("mal"), ctx.tier) if c.startswith("frombytes")]
+    # storing into buffers of other sizes than the exact one (then the stored bytes convert back)
+    cases += [c for c in suites.hex_buffer_cases(ctx.rng.fork("buf"), ctx.tier) if c.startswith("storebytes")]
     ctx.correspond("BIN", cases, hb, db, flags=fl, predicate=pred,
                    nontrivial=lambda c, i: "InvalidStringLength" not in i)
+    # equality, Clone / clone_from / Copy, Debug stability and the equality of the parts, on equal, one-byte-different and random pairs
+    tr = []
+    r2 = ctx.rng.fork("traits")
+    for v in suites.VNAMES:
+        size = suites.VARIANTS[v][3]
+        for _ in range(12 if ctx.tier == "quick" else 400):
+            a = bytearray(suites.plausible_bin(r2, v))
+            tr.append("traits %s %s %s" % (v, core.hx(a), core.hx(a)))
+            tr.append("traits %s %s %s" % (v, core.hx(a), core.hx(suites.plausible_bin(r2, v))))
+        base = bytearray(suites.plausible_bin(r2, v))
+        for pos in range(size):                       # a difference in exactly one byte, at every position
+            b = bytearray(base)
+            b[pos] ^= 1 << r2.below(8)
+            tr.append("traits %s %s %s" % (v, core.hx(base), core.hx(b)))
+            tr.append("traits %s %s %s" % (v, core.hx(b), core.hx(base)))
+
+    def tpred(c, i, m):
+        if i != m:
+            return "equality / Clone / clone_from / Debug of hash values or of their parts disagrees with the bytes: `%s` (model `%s`)" % (i[:60], m[:60])
+        return None
+    ctx.correspond("TRAITS", tr, hb, db, flags=fl, predicate=tpred, coq_sample=4, nontrivial=lambda c, i: True)
     return finish(ctx)
 
 
